@@ -164,7 +164,14 @@ func (c *Ctx) Seen(hash uint64, nontrivial bool) {
 
 // SetCase registers a lazy description of the current case; it is serialised
 // only if a deviation is reported or a sample is taken.
-func (c *Ctx) SetCase(desc func() any) { c.caseDesc = desc }
+func (c *Ctx) SetCase(desc func() any) {
+	c.caseDesc = desc
+	if os.Getenv("VERIF_PRINT_CASE") != "" {
+		if b, err := json.Marshal(desc()); err == nil {
+			fmt.Fprintf(os.Stderr, "CASE batch=%d index=%d %s\n", c.Batch, c.Index, clip(string(b), 4000))
+		}
+	}
+}
 
 func (c *Ctx) Sample(v any) {
 	c.mu.Lock()
